@@ -85,6 +85,7 @@ pub fn exec_discbuild(input: &Value) -> Value {
 }
 
 pub fn generate(thorough: bool, seed: u64, em: &mut Emitter) {
+    super::c14::generate_edge_paths(seed, 40, em);
     let mut r = Rng::new(seed ^ 0xC07);
     let n = if thorough { 30_000 } else { 2_000 };
     for _ in 0..n {
